@@ -1,4 +1,5 @@
 import SV.Wire
+import SV.Model.C20Derive
 import SV.Spec.C20
 import SV.Spec.C20Scalars
 open SV SV.Wire SV.Model.C20 SV.Spec.C20
@@ -122,6 +123,21 @@ def encOptNode : Option ValueNode → Json
 
 def handle : Handler := fun op a => do
   match op with
+  | "derive_tree" =>
+    -- steps: [[parentIndex, isInclude, filterId]]; schema 0 is the root (no filters); schema i+1 is made by step i
+    let steps ← (← asArr (← field a "steps")).mapM fun st => do
+      match ← asArr st with
+      | [pi, inc, f] => pure ((← asNat pi), (← asBool inc), (← asNat f))
+      | _ => throw "step"
+    let mode := match (← asStr (← field a "clone")) with | "share" => SV.Model.C20Derive.CloneMode.shareIncludes | _ => .copyBoth
+    let init : SV.Model.C20Derive.Heap := [[], []]
+    let (h, schemas) := steps.foldl (fun (acc : SV.Model.C20Derive.Heap × List SV.Model.C20Derive.FS) st =>
+      let parent := (acc.2[st.1]?).getD ⟨0, 1⟩
+      let r := SV.Model.C20Derive.derive mode acc.1 ⟨parent, st.2.1, st.2.2⟩
+      (r.1, acc.2 ++ [r.2])) (init, [⟨0, 1⟩])
+    return .arr (schemas.map fun fs =>
+      let v := SV.Model.C20Derive.view h fs
+      .arr [.arr (v.1.map jnat), .arr (v.2.map jnat)])
   | "select" =>
     let raw ← decRaw (← field a "raw")
     let F ← decFilterSet (← field a "filters")
